@@ -3,6 +3,52 @@ import LitexProofs.Timeout.Wb
 import LitexProofs.Timeout.Axi
 import LitexProofs.Timeout.BusErr
 import LitexModel.Timeout.AxiXbar
+import LitexProofs.Timeout.Soc
+import LitexProofs.RoundRobin
+/-
+  ## Inventory of the anchored code (session 2) — modelled? theorem? tied how?
+
+  Tie columns: A = exhaustive co-exploration of the reachable product model x real netlist (small parameters),
+  B = seeded lock-step co-simulation with property monitors armed (realistic sizes), S = real `SoCMini`/`SoCBusHandler`
+  scenarios with a test-bench master (oracle only), P = probe of a finding.  Driver names are those of
+  `LitexModel/Timeout/Num.lean`.
+
+  | code (file: object)                                   | Lean model                          | theorems                                                         | tie |
+  |--------------------------------------------------------|-------------------------------------|------------------------------------------------------------------|-----|
+  | misc.py: WaitTimer(t) (int/float t, bits_for corner)   | WaitTimer.next/done/machine         | waittimer_count, _done_iff, _exact, _reload                      | A t∈{1..8,2.7,3.0}; B t∈{100,1000} (`waittimer`) |
+  | wishbone.py: Timeout                                   | Wb.timeout (tOut/tWait/tNext)       | wb_timeout_module_exact                                          | A t∈{1,2,3,8}, dw∈{8,64,128}; B (`wbtimeout`) |
+  | wishbone.py: InterconnectShared(timeout_cycles=t/None) | Wb.Shared (arbiter RR withdraw +    | wb_timeout_exact, _undisturbed, _arbitration_independent,         | A n×k ≤ 3×3, reg, mixed adr widths, t float/None; |
+  |   incl. Arbiter + Decoder as far as cyc/stb/adr/ack/   |   decoder + Timeout override)       | _coincidence, _recovers, wb_waited_scenario,                      | B up to 5×3, t∈{7,16,100,128,255,default 1e6} |
+  |   err/dat_r go (we/dat_w/sel/cti/bte: C06)             |                                     | wb_silent_request_terminated_at_t, wb_unmapped_address,           | (`wbshared`) |
+  |                                                        |                                     | wb_bounded_termination, wb_healthy_bus_transparent,               |     |
+  |                                                        |                                     | wb_grant_is_roundrobin, wb_every_master_served                    |     |
+  | wishbone.py: Crossbar(timeout_cycles)  [ignored]       | Wb.Crossbar                         | wb_crossbar_ignores_timeout, _silent_slave_hangs, _hangs_forever  | A, B (`wbxbar`); P C11-crossbar-timeout-ignored |
+  | wishbone.py: InterconnectPointToPoint                  | — (no timeout exists; C06-p2p-*)    | —                                                                | recorded as note only |
+  | axi_lite.py: AXILiteTimeout ; axi_full.py: AXITimeout  | Axi.wTimeout, Axi.rTimeout full     | axl_wr/rd_transparent, _timeout_exact, _forced, _recovers,        | A t∈{1,2,3}, dw∈{8,64,128}, both directions; B |
+  |   (channel_fsm WAIT/RESPOND, two WaitTimers, error =   |   (FState, wOut/wNext, rOut/rNext)  | _undisturbed, _waiting, _timeout_bound, axi_rd_forced_last,       | (`axtimeout`) |
+  |   wr_error | rd_error)                                 |                                     | axi_forced_read_one_beat, axi_wr_respond_absorbs_burst, _then_b   |     |
+  | axi_lite.py/axi_full.py: _AXI(Lite)RequestCounter      | Axi.ctrNext/ctrReady                | used in the composed theorems (lock = 0 again after forced resp.) | via `axshared` |
+  | AXI(Lite)Arbiter, AXI(Lite)Decoder (control: valid/    | Axi.SharedW, Axi.SharedR            | axl_shared_wr/rd_exact, _undisturbed, axl_wr/rd_timeout_bound_    | A 1×1,2×1,1×2 (2×2 thorough), BFS to a transition |
+  |   ready/addr/resp/data/last, lock counters, selects)   |                                     | partial, axl_unmapped_address, axl_response_phase_hangs,          | budget; B 2×2..3×2, t∈{7,16,100,128}, dw 32/64 |
+  | AXI(Lite)InterconnectShared(timeout_cycles=t/None)     |                                     | axl_shared_wr/rd_stall_bounded, axl_healthy_bus_transparent_wr/rd | (`axshared`) |
+  | AXIArbiter/AXIDecoder pass-through payload: aw/ar id,  | Axi.payOut (Timeout/Soc.lean)       | axi_response_id_independent_of_request, axi_forced_response_id_   | A 1×1 (2×1, 1×2 thorough), B 2×2 with random ids/ |
+  |   len, w.last, b/r id (NEW)                            |                                     | zero, _matches_partial (+ witness), axi_request_payload_routed    | len/last (`axsoc`) |
+  |   burst, size, lock, prot, cache, qos, region, data,   | not modelled: routed by the same    | —                                                                | —   |
+  |   strb: same M→S broadcast as id/len                   |   two statements as id/len          |                                                                  |     |
+  |   user: zero-width on the shared bus (not connected);  | n/a                                 | —                                                                | —   |
+  |   dest: not on AXI ports ("No DEST")                   |                                     |                                                                  |     |
+  | AXILiteCrossbar / AXICrossbar(timeout_cycles) [ignored]| Axi.XbarW / XbarR                   | axl_crossbar_ignores_timeout, _silent_slave_hangs, _hangs_forever | A, B (`axxbar`); P crossbar finding |
+  | soc.py: SoCController bus_errors (32-bit saturating)   | BusErr.next/machine                 | bus_errors_counts(_from)                                         | A near saturation, B (`buserr`) |
+  | soc.py: SoC.finalize `ctrl.bus_error = interconnect.   | Wb.Soc.machine, Axi.Soc.machine     | wb_soc_bus_errors_counts, wb_soc_pulse_is_forced_ack,             | A + B with the counter preloaded near saturation |
+  |   timeout.error` (NEW as a composed model)             |   (Timeout/Soc.lean)                | axi_soc_bus_errors_counts, _inclusion_exclusion, _counts_partial, | (`wbsoc`, `axsoc`: real interconnect + real |
+  |                                                        |                                     | _le (+ witness: simultaneous expiry = one count)                  | SoCController, wired by the finalize statement); S |
+  | soc.py: SoC(bus_timeout=1e6) → SoCBusHandler(timeout)  | parameter `t` of the models         | all theorems are parametric in `t`                               | S: SoCMini ×3 standards, t∈{8,16,100,128}, dw 32/64;|
+  |   → do_finalize: interconnect_cls(..., timeout_cycles) |                                     |                                                                  | handler 1×1 at non-zero origin; CSR-only SoCMini; |
+  |   (p2p when 1×1 at origin 0: no timeout)               |                                     |                                                                  | B `default` (argument omitted = 1e6) |
+
+  Open (not theorems): crossbars with a working timeout (finding); AXI response phase (finding); a closed cycle bound
+  for `wb_every_master_served` needs a master model (release of `cyc` after `ack`) — stated compositionally instead.
+-/
 /-
   C11 — A silent or absent slave cannot hang the bus.
 
@@ -903,6 +949,345 @@ theorem bus_errors_counts (w : Nat) (l : List Bool) :
 example : (BusErr.machine 2).run [true, false, true, true, true, true] = 3 := by decide
 
 end busErr
+
+/-! ## SoC level: the bus error counter wired to the interconnect (`SoC.finalize`) -/
+
+section socCounter
+open BusErr
+
+/-- **Wishbone SoC.**  `InterconnectShared` + `SoCController` wired as `SoC.finalize` does, any `n x k`, any decoder,
+    any history: `bus_errors` = number of expiry cycles so far, saturating at `2^w - 1`.  By `wb_timeout_exact` an
+    expiry cycle is exactly a cycle in which the owner's request has waited `t` cycles and is terminated with the
+    forced all-ones acknowledge, so on Wishbone the counter counts the timed-out requests one by one. -/
+theorem wb_soc_bus_errors_counts (c : Wb.Cfg) (w : Nat) (xs : List Wb.BusIn) :
+    ((Wb.Soc.machine c w).run xs).errs =
+      min (pulses (((Wb.Shared.machine c).trace xs).map (·.error))) (2 ^ w - 1) := by
+  have h := (Wb.Soc.runFrom_spec c w 0 xs (Wb.Soc.init c 0) (Nat.zero_le _)).2
+  simpa [Wb.Soc.errors, Wb.Soc.init, maxVal, Machine.run, Machine.trace, Wb.Soc.machine, Wb.Shared.machine] using h
+
+/-- Every counted pulse is a forced termination of the owner's request (or of the idle bus if the owner withdrew in
+    the expiry cycle): `ack`, all-ones data. -/
+theorem wb_soc_pulse_is_forced_ack (c : Wb.Cfg) {t : Nat} (ht : c.t = some t) (xs : List Wb.BusIn) (x : Wb.BusIn)
+    (he : (Wb.Shared.out c ((Wb.Shared.machine c).run xs) x).error = true) :
+    let s := (Wb.Shared.machine c).run xs
+    Wb.Shared.waited c xs = t ∧ ((Wb.Shared.out c s x).toM s.grant).ack = true ∧
+    ((Wb.Shared.out c s x).toM s.grant).datR = Wb.ones c.dw := by
+  have h := wb_timeout_exact c ht xs x
+  have hw := h.2.1.mp he
+  exact ⟨hw, h.2.2.1 hw⟩
+
+example : ((Wb.Soc.machine cfgWb 32).run [reqIn, reqIn, reqIn, reqIn, reqIn, reqIn, reqIn, reqIn]).errs = 2 := by
+  decide
+
+/-- `wr_error` / `rd_error` cycle by cycle. -/
+def wrErrors (c : Axi.Cfg) (xs : List Axi.SocIn) : List Bool :=
+  ((Axi.SharedW.machine c).trace (xs.map (·.xw))).map (·.error)
+def rdErrors (c : Axi.Cfg) (xs : List Axi.SocIn) : List Bool :=
+  ((Axi.SharedR.machine c).trace (xs.map (·.xr))).map (·.error)
+
+/-- **AXI / AXI-Lite SoC, as coded.**  `bus_errors` = number of cycles in which the write OR the read timeout
+    expired (`error = wr_error | rd_error`), saturating — for every `n x k`, decoder, history. -/
+theorem axi_soc_bus_errors_counts (c : Axi.Cfg) (w : Nat) (xs : List Axi.SocIn) :
+    ((Axi.Soc.machine c w).run xs).errs =
+      min (pulses (List.zipWith (· || ·) (wrErrors c xs) (rdErrors c xs))) (2 ^ w - 1) := by
+  have h := (Axi.Soc.runFrom_spec c w 0 xs (Axi.Soc.init c 0) (Nat.zero_le _)).2.2
+  rw [Axi.Soc.errors_eq] at h
+  simpa [Axi.Soc.init, maxVal, Machine.run, Machine.trace, Axi.Soc.machine, wrErrors, rdErrors, Axi.SharedW.machine,
+    Axi.SharedR.machine] using h
+
+/-- Inclusion–exclusion: the pulses the counter sees plus the coincidences = write expiries + read expiries. -/
+theorem axi_soc_pulses_inclusion_exclusion (c : Axi.Cfg) (xs : List Axi.SocIn) :
+    pulses (List.zipWith (· || ·) (wrErrors c xs) (rdErrors c xs)) +
+      pulses (List.zipWith (· && ·) (wrErrors c xs) (rdErrors c xs)) =
+    pulses (wrErrors c xs) + pulses (rdErrors c xs) := by
+  have hl : (wrErrors c xs).length = (rdErrors c xs).length := by
+    simp [wrErrors, rdErrors, Machine.trace, Machine.traceFrom_length]
+  have h := pulses_or_and (wrErrors c xs) (rdErrors c xs)
+  rw [← hl, List.take_length, hl, List.take_length] at h
+  exact h
+
+/-- Full statement of the property ("every timed-out request is counted": `bus_errors = min (write expiries + read
+    expiries) max`) — `_partial`: it holds when no write expiry coincides with a read expiry.  In general the
+    counter is a lower bound (`axi_soc_bus_errors_le`). -/
+theorem axi_soc_bus_errors_counts_partial (c : Axi.Cfg) (w : Nat) (xs : List Axi.SocIn)
+    (hno : pulses (List.zipWith (· && ·) (wrErrors c xs) (rdErrors c xs)) = 0) :
+    ((Axi.Soc.machine c w).run xs).errs = min (pulses (wrErrors c xs) + pulses (rdErrors c xs)) (2 ^ w - 1) := by
+  rw [axi_soc_bus_errors_counts, ← axi_soc_pulses_inclusion_exclusion, hno, Nat.add_zero]
+
+theorem axi_soc_bus_errors_le (c : Axi.Cfg) (w : Nat) (xs : List Axi.SocIn) :
+    ((Axi.Soc.machine c w).run xs).errs ≤ pulses (wrErrors c xs) + pulses (rdErrors c xs) := by
+  rw [axi_soc_bus_errors_counts, ← axi_soc_pulses_inclusion_exclusion]; omega
+
+/-- 1x1 AXI interconnect, `timeout_cycles = 3`; a master that issues a write (id 3, 2 beats) and a read (id 2, 4
+    beats) in the same cycle to a silent slave which drives id 0. -/
+def cfgAxi : Axi.Cfg := { cfg11 with full := true }
+def bothIn (wm : Axi.WM) (rm : Axi.RM) : Axi.SocIn :=
+  { xw := { ms := fun _ => wm, ss := fun _ => {} }, xr := { ms := fun _ => rm, ss := fun _ => {} },
+    p := { pm := fun _ => { awid := 3, awlen := 1, arid := 2, arlen := 3 }, ps := fun _ => {} } }
+def bothTrace : List Axi.SocIn :=
+  [bothIn { awv := true, wv := true } { arv := true }, bothIn { awv := true, wv := true } { arv := true },
+   bothIn { awv := true, wv := true } { arv := true }, bothIn { awv := true, wv := true } { arv := true },
+   bothIn { awv := true, wv := true } { arv := true }, bothIn { br := true } { rr := true }, bothIn {} {}]
+
+/-- **Negative witness (candidate finding C11-axi-simultaneous-expiry-one-count).**  The write and the read expire in
+    the same cycle: two requests are terminated with SLVERR, `bus_errors` is 1. -/
+example : pulses (wrErrors cfgAxi bothTrace) = 1 ∧ pulses (rdErrors cfgAxi bothTrace) = 1 ∧
+    ((Axi.Soc.machine cfgAxi 32).run bothTrace).errs = 1 := by decide
+
+end socCounter
+
+/-! ## AXI pass-through payload: ids, burst length, `last`
+
+  Property reading: the forced response must be a response *to the request it terminates*: on AXI4 that means it
+  carries the request's id, and a burst must be brought to an end (`last`).  What the code does is stated and
+  proved as it is; where that falls short of the AXI4 rule the theorem is `_partial` with a witness. -/
+
+section axPayload
+open Axi
+
+/-- The ids a master sees on `B`/`R` never depend on anything the masters drive as payload — in particular not on
+    the id of the request being answered — nor on the timeout FSM: also a forced response carries the decoder's mux
+    of the slaves' id outputs (AXITimeout overrides `resp`, `data`, `last`, not `id`). -/
+theorem axi_response_id_independent_of_request (c : Axi.Cfg) (sw sr : DState) (xw : WBusIn) (xr : RBusIn)
+    (p : PayIn) (pm' : Nat → PM) :
+    (payOut c sw sr xw xr { p with pm := pm' }).toM = (payOut c sw sr xw xr p).toM := by
+  simp only [payOut]; split <;> rfl
+
+/-- The response ids of a slave that drives 0 (any silent/idle slave of the tree) or of an unmapped address. -/
+theorem axi_forced_response_id_zero (c : Axi.Cfg) (sw sr : DState) (xw : WBusIn) (xr : RBusIn) (p : PayIn)
+    (h0 : ∀ j, ((p.ps j).bid = 0 ∨ SharedW.sel c sw xw j = false) ∧ ((p.ps j).rid = 0 ∨ SharedR.sel c sr xr j = false))
+    (i : Nat) : ((payOut c sw sr xw xr p).toM i).bid = 0 ∧ ((payOut c sw sr xw xr p).toM i).rid = 0 := by
+  simp only [payOut]; split
+  · refine ⟨Wb.orDat_zero fun j => ?_, Wb.orDat_zero fun j => ?_⟩
+    · rcases (h0 j).1 with h | h <;> simp [Wb.gate, h]
+    · rcases (h0 j).2 with h | h <;> simp [Wb.gate, h]
+  · exact ⟨rfl, rfl⟩
+
+/-- Full statement (AXI4 A5.2: "the RID/BID of a response must match the ARID/AWID of the request it answers") —
+    `_partial`: with a silent (id-0-driving) or absent slave it holds exactly for requests issued with id 0. -/
+theorem axi_forced_response_id_matches_partial (c : Axi.Cfg) (sw sr : DState) (xw : WBusIn) (xr : RBusIn)
+    (p : PayIn) (h0 : ∀ j, (p.ps j).bid = 0 ∧ (p.ps j).rid = 0) (awid arid : Nat) (i : Nat) :
+    (((payOut c sw sr xw xr p).toM i).bid = awid ↔ awid = 0) ∧
+    (((payOut c sw sr xw xr p).toM i).rid = arid ↔ arid = 0) := by
+  have h := axi_forced_response_id_zero c sw sr xw xr p (fun j => ⟨Or.inl (h0 j).1, Or.inl (h0 j).2⟩) i
+  rw [h.1, h.2]; exact ⟨eq_comm, eq_comm⟩
+
+/-- Master-to-slave payload is that of the owner of the respective direction, for every slave (broadcast). -/
+theorem axi_request_payload_routed (c : Axi.Cfg) (hf : c.full = true) (sw sr : DState) (xw : WBusIn)
+    (xr : RBusIn) (p : PayIn) (j : Nat) :
+    (payOut c sw sr xw xr p).toS j =
+      { awid := (p.pm sw.grant).awid, awlen := (p.pm sw.grant).awlen, wlast := (p.pm sw.grant).wlast,
+        arid := (p.pm sr.grant).arid, arlen := (p.pm sr.grant).arlen } := by
+  simp [payOut, hf]
+
+/-- What the single master sees in `bothTrace`, per cycle: (b.valid, b.resp, b.id, r.valid, r.resp, r.last, r.id). -/
+def seen (c : Axi.Cfg) (xs : List SocIn) : List ((Bool × Nat × Nat) × (Bool × Nat × Bool × Nat)) :=
+  ((Soc.machine c 32).trace xs).map fun o =>
+    (((o.ow.toM 0).bv, (o.ow.toM 0).bresp, (o.pay.toM 0).bid),
+     ((o.or.toM 0).rv, (o.or.toM 0).rresp, (o.or.toM 0).rlast, (o.pay.toM 0).rid))
+
+/-- **Negative witness (candidate finding C11-axi-forced-response-id).**  Write with id 3 / read with id 2 to a
+    silent slave: the forced `B` and the forced `R` (cycle 5) carry id 0.  Also visible: the 4-beat read burst
+    (`ar.len = 3`) is answered by ONE beat with `last`. -/
+example : seen cfgAxi bothTrace =
+    [((false, 0, 0), (false, 0, false, 0)), ((false, 0, 0), (false, 0, false, 0)), ((false, 0, 0), (false, 0, false, 0)),
+     ((false, 0, 0), (false, 0, false, 0)), ((false, 2, 0), (false, 2, true, 0)),
+     ((true, 2, 0), (true, 2, true, 0)),
+     ((false, 0, 0), (false, 0, false, 0))] := by decide
+
+/-- **Bursts, read: the forced response is exactly one beat.**  Whatever `ar.len` was: every forced `R` beat has
+    `last` (AXI), and its handshake returns the FSM to its reset state — a master that ends a burst on `last` is
+    released after one beat (it receives `len + 1` beats only if `len = 0`). -/
+theorem axi_forced_read_one_beat (dw t : Nat) (s : FState) (x : RIn) (hs : s.respond = true) :
+    ((rOut true dw s x).rv = true → (rOut true dw s x).rlast = true ∧ (rOut true dw s x).rresp = RESP_SLVERR) ∧
+    ((rOut true dw s x).rv = true → x.rr = true → rNext true dw t s x = fInit t) := by
+  refine ⟨fun _ => by simp [rOut, hs], fun hv hr => ?_⟩
+  have ha : x.arv = false := by simpa [rOut, hs] using hv
+  exact axl_rd_recovers true dw t s x hs ha hr
+
+/-- **Bursts, write: RESPOND absorbs any number of beats.**  From RESPOND, for every stretch `ys` of cycles in each
+    of which the master offers an AW or a W beat: every offered beat is accepted in its cycle, no `B` is offered, the
+    FSM stays in RESPOND (so a burst of any length streamed without a bubble is swallowed whole). -/
+theorem axi_wr_respond_absorbs_burst (t : Nat) (ys : List WIn) : ∀ (s : FState), s.respond = true →
+    (∀ y ∈ ys, (y.awv || y.wv) = true) →
+    ((wTimeout t).runFrom s ys).respond = true ∧
+    ((wTimeout t).traceFrom s ys) = ys.map fun y =>
+      { awr := y.awv, wr := y.wv, bv := false, bresp := RESP_SLVERR, error := false } := by
+  induction ys with
+  | nil => intro s hs _; simp [Machine.runFrom, Machine.traceFrom, hs]
+  | cons y ys ih =>
+    intro s hs hy
+    have h1 := hy y (by simp)
+    have ho : wOut s y = { awr := y.awv, wr := y.wv, bv := false, bresp := RESP_SLVERR, error := false } := by
+      rw [axl_wr_forced s y hs]
+      cases ha : y.awv <;> cases hw : y.wv <;> simp [ha, hw] at h1 ⊢
+    have hn : (wNext t s y).respond = true := by simp [wNext, hs, ho]
+    obtain ⟨r1, r2⟩ := ih (wNext t s y) hn (fun z hz => hy z (by simp [hz]))
+    exact ⟨r1, by simp only [Machine.traceFrom, List.map_cons]; rw [← ho]; congr 1⟩
+
+/-- … and the first cycle without an offered beat gets the `B` (SLVERR); with `b.ready` the FSM is reset. -/
+theorem axi_wr_respond_burst_then_b (t : Nat) (ys : List WIn) (s : FState) (hs : s.respond = true)
+    (hy : ∀ y ∈ ys, (y.awv || y.wv) = true) (x : WIn) (hx : x.awv = false ∧ x.wv = false ∧ x.br = true) :
+    let s' := (wTimeout t).runFrom s ys
+    (wOut s' x).bv = true ∧ (wOut s' x).bresp = RESP_SLVERR ∧ wNext t s' x = fInit t := by
+  intro s'
+  have hr : s'.respond = true := (axi_wr_respond_absorbs_burst t ys s hs hy).1
+  refine ⟨by simp [wOut, hr, hx.1, hx.2.1], by simp [wOut, hr], axl_wr_recovers t s' x hr hx.1 hx.2.1 hx.2.2⟩
+
+/-! Full statement for write bursts ("one B per AW"):
+
+        theorem axi_forced_write_one_response_open : a timed-out write burst receives exactly one B
+
+    holds for bursts streamed without a bubble (`axi_wr_respond_absorbs_burst`); it fails when the master pauses
+    between two W beats while `b.ready` is high: the pause is taken for the end of the write, `B` is sent, and the
+    remaining beats start a second time-out and earn a second `B` (`t = 2`: B in cycles 4 and 9). -/
+example :
+    let w (wv br : Bool) : WIn := { awv := false, wv := wv, br := br, awr := false, wr := false, bv := false, bresp := 0 }
+    ((wTimeout 2).trace
+      [{ w true true with awv := true }, { w true true with awv := true }, { w true true with awv := true },  -- 0-2: stalled; error in 2
+       { w true true with awv := true },                                     -- 3: AW + beat 1 absorbed
+       w false true,                                                         -- 4: bubble: B #1
+       w true true, w true true, w true true,                                -- 5-7: beat 2 stalls; error in 7
+       w true true,                                                          -- 8: beat 2 absorbed
+       w false true]).map (fun o => (o.wr, o.bv, o.error))                   -- 9: B #2
+    = [(false, false, false), (false, false, false), (false, false, true), (true, false, false), (false, true, false),
+       (false, false, false), (false, false, false), (false, false, true), (true, false, false), (false, true, false)] := by
+  decide
+
+end axPayload
+
+/-! ## Healthy bus: the timeout is invisible (for all `n`, `k`, `t`, decoders, histories) -/
+
+section transparency
+
+/-- **Wishbone.**  Reference system: the same interconnect built with `timeout_cycles=None`.  If there no request
+    ever waits `t` cycles (every slave answers within `t` cycles: no prefix of the history ends in a streak of `t`
+    waiting cycles), then in EVERY cycle every port of the interconnect with timeout carries exactly what the
+    reference carries, and `error` is never raised. -/
+theorem wb_healthy_bus_transparent (c : Wb.Cfg) {t : Nat} (ht : c.t = some t) (xs : List Wb.BusIn)
+    (hh : ∀ ys zs, xs = ys ++ zs → Wb.Shared.waited (Wb.Shared.noT c) ys < t)
+    (ys : List Wb.BusIn) (x : Wb.BusIn) (zs : List Wb.BusIn) (hsplit : xs = ys ++ x :: zs) :
+    let o := Wb.Shared.out c ((Wb.Shared.machine c).run ys) x
+    let o0 := Wb.Shared.out (Wb.Shared.noT c) ((Wb.Shared.machine (Wb.Shared.noT c)).run ys) x
+    (∀ i, o.toM i = o0.toM i) ∧ (∀ j, o.toS j = o0.toS j) ∧ o.error = false := by
+  intro o o0
+  have hpre : ∀ a b, ys = a ++ b → Wb.Shared.waited (Wb.Shared.noT c) a < t :=
+    fun a b hab => hh a (b ++ x :: zs) (by rw [hsplit, hab, List.append_assoc])
+  obtain ⟨hs, hw⟩ := Wb.Shared.healthy_sim c ht ys hpre
+  have hd : WaitTimer.done ((Wb.Shared.machine c).run ys).count = false := by
+    rw [Wb.Shared.run_count_spec c ht, hw]
+    have := hpre ys [] (by simp)
+    simp [WaitTimer.done]; omega
+  obtain ⟨h1, h2, h3, _⟩ := Wb.Shared.sim_out c ht _ _ x hs hd
+  exact ⟨h1, h2, h3⟩
+
+/-- **AXI / AXI-Lite, write channels.**  Reference: `timeout_cycles=None`.  If there no AW/W stall streak of the owner
+    exceeds `t` cycles, every port carries what the reference carries in every cycle and `wr_error` never fires.
+    (The streak is the one of `wait_cond`, see finding C11-axi-timeout-accumulates-across-transfers.) -/
+theorem axl_healthy_bus_transparent_wr (c : Axi.Cfg) {t : Nat} (ht : c.t = some t) (xs : List Axi.WBusIn)
+    (hh : ∀ ys zs, xs = ys ++ zs → Axi.SharedW.waited (Axi.SharedW.noT c) ys ≤ t)
+    (ys : List Axi.WBusIn) (x : Axi.WBusIn) (zs : List Axi.WBusIn) (hsplit : xs = ys ++ x :: zs) :
+    let o := Axi.SharedW.out c ((Axi.SharedW.machine c).run ys) x
+    let o0 := Axi.SharedW.out (Axi.SharedW.noT c) ((Axi.SharedW.machine (Axi.SharedW.noT c)).run ys) x
+    (∀ i, o.toM i = o0.toM i) ∧ (∀ j, o.toS j = o0.toS j) ∧ o.error = false := by
+  intro o o0
+  have hpre : ∀ a b, ys ++ [x] = a ++ b → Axi.SharedW.waited (Axi.SharedW.noT c) a ≤ t :=
+    fun a b hab => hh a (b ++ zs) (by rw [hsplit, ← List.append_assoc, ← hab]; simp)
+  obtain ⟨hs, _⟩ := Axi.SharedW.healthy_sim c ht ys (fun a b hab => hpre a (b ++ [x]) (by rw [hab, List.append_assoc]))
+  obtain ⟨hs', _⟩ := Axi.SharedW.healthy_sim c ht (ys ++ [x]) hpre
+  -- the next state is still in WAIT, hence no error pulse in this cycle
+  have hne : o.error = false := by
+    have hr' : ((Axi.SharedW.machine c).run (ys ++ [x])).tm.respond = false := hs'.2.2.2.1
+    rw [Axi.SharedW.run_snoc, Axi.SharedW.next_tm c ht] at hr'
+    have hr := hs.2.2.2.1
+    show (Axi.SharedW.tRes c _ x).error = false
+    rw [Axi.SharedW.tRes_some c ht]
+    simpa [Axi.wNext, Axi.wOut, hr] using hr'
+  obtain ⟨h1, h2, _, _⟩ := Axi.SharedW.sim_step c ht _ _ x hs hne
+  exact ⟨h1, h2, hne⟩
+
+/-- **AXI / AXI-Lite, read channels.** -/
+theorem axl_healthy_bus_transparent_rd (c : Axi.Cfg) {t : Nat} (ht : c.t = some t) (xs : List Axi.RBusIn)
+    (hh : ∀ ys zs, xs = ys ++ zs → Axi.SharedR.waited (Axi.SharedR.noT c) ys ≤ t)
+    (ys : List Axi.RBusIn) (x : Axi.RBusIn) (zs : List Axi.RBusIn) (hsplit : xs = ys ++ x :: zs) :
+    let o := Axi.SharedR.out c ((Axi.SharedR.machine c).run ys) x
+    let o0 := Axi.SharedR.out (Axi.SharedR.noT c) ((Axi.SharedR.machine (Axi.SharedR.noT c)).run ys) x
+    (∀ i, o.toM i = o0.toM i) ∧ (∀ j, o.toS j = o0.toS j) ∧ o.error = false := by
+  intro o o0
+  have hpre : ∀ a b, ys ++ [x] = a ++ b → Axi.SharedR.waited (Axi.SharedR.noT c) a ≤ t :=
+    fun a b hab => hh a (b ++ zs) (by rw [hsplit, ← List.append_assoc, ← hab]; simp)
+  obtain ⟨hs, _⟩ := Axi.SharedR.healthy_sim c ht ys (fun a b hab => hpre a (b ++ [x]) (by rw [hab, List.append_assoc]))
+  obtain ⟨hs', _⟩ := Axi.SharedR.healthy_sim c ht (ys ++ [x]) hpre
+  have hne : o.error = false := by
+    have hr' : ((Axi.SharedR.machine c).run (ys ++ [x])).tm.respond = false := hs'.2.2.2.1
+    rw [Axi.SharedR.run_snoc, Axi.SharedR.next_tm c ht] at hr'
+    have hr := hs.2.2.2.1
+    show (Axi.SharedR.tRes c _ x).error = false
+    rw [Axi.SharedR.tRes_some c ht]
+    simpa [Axi.rNext, Axi.rOut, hr] using hr'
+  obtain ⟨h1, h2, _, _⟩ := Axi.SharedR.sim_step c ht _ _ x hs hne
+  exact ⟨h1, h2, hne⟩
+
+/-- Non-vacuity: the in-time answer of the Wishbone example above satisfies the hypothesis (`t = 3`, longest wait 2). -/
+example :
+    let ackIn : Wb.BusIn := { reqIn with ss := fun j => if j = 1 then { ack := true, datR := 0x5a } else {} }
+    (List.range 5).all (fun m => Wb.Shared.waited (Wb.Shared.noT cfgWb) ([reqIn, reqIn, ackIn, reqIn].take m) < 3) = true := by
+  decide
+
+end transparency
+
+/-! ## Liveness for every slave behaviour and every master (closed statements per interconnect kind) -/
+
+section liveness
+
+/-- **AXI / AXI-Lite shared, write: no stall outlives the timeout — for EVERY history** (all `n x k`, decoders, master
+    schedules, slave behaviours: silent, late, absent, answering after expiry …).  The owner's pending AW/W beat is
+    refused for at most `t + 1` consecutive cycles; after `t + 1` the FSM is in RESPOND, where by
+    `axl_shared_wr_exact` every offered beat is accepted in the cycle it is offered and `B`(SLVERR) is offered as
+    soon as none is.  (The *response* phase is not covered: finding C11-axi-response-phase-unwatched.) -/
+theorem axl_shared_wr_stall_bounded (c : Axi.Cfg) {t : Nat} (ht : c.t = some t) (xs : List Axi.WBusIn) :
+    Axi.SharedW.waited c xs ≤ t + 1 ∧
+    (Axi.SharedW.waited c xs = t + 1 → ((Axi.SharedW.machine c).run xs).tm.respond = true) :=
+  Axi.SharedW.waited_le c ht xs
+
+theorem axl_shared_rd_stall_bounded (c : Axi.Cfg) {t : Nat} (ht : c.t = some t) (xs : List Axi.RBusIn) :
+    Axi.SharedR.waited c xs ≤ t + 1 ∧
+    (Axi.SharedR.waited c xs = t + 1 → ((Axi.SharedR.machine c).run xs).tm.respond = true) :=
+  Axi.SharedR.waited_le c ht xs
+
+/-- The request vectors the Wishbone arbiter sees along a history. -/
+def wbReqs (xs : List Wb.BusIn) : List ((Nat → Bool) × Bool) := xs.map fun x => (fun i => (x.ms i).cyc, true)
+
+/-- The arbiter of the shared interconnect is Migen's round-robin on the masters' `cyc`, untouched by the timeout. -/
+theorem wb_grant_is_roundrobin (c : Wb.Cfg) (xs : List Wb.BusIn) : ∀ (s : Wb.State),
+    ((Wb.Shared.machine c).runFrom s xs).grant = RoundRobin.run .withdraw c.n s.grant (wbReqs xs) := by
+  induction xs with
+  | nil => intro s; rfl
+  | cons x xs ih => intro s; simp only [Machine.runFrom, wbReqs, List.map_cons, RoundRobin.run]; rw [ih]; rfl
+
+/-- **Wishbone shared: every master is served.**  Let master `i` keep `cyc` asserted during `xs` (from any reachable
+    state).  (1) The number of times the bus is handed to somebody else while `i` waits, plus the round-robin
+    distance still to go, never exceeds the initial distance `≤ n - 1`: `i` is overtaken at most `n - 1` times,
+    whatever the other masters and all slaves do.  (2) Each owner's single request is terminated after at most `t`
+    waiting cycles (`wb_bounded_termination`, every slave behaviour).  Hence a master is served after at most
+    `n - 1` foreign accesses of at most `t + 1` cycles each, provided owners release `cyc` after their
+    acknowledge (a master holding `cyc` forever keeps the bus by design: SP_WITHDRAW). -/
+theorem wb_every_master_served (c : Wb.Cfg) (i : Nat) (hi : i < c.n) (s : Wb.State) (hg : s.grant < c.n)
+    (xs : List Wb.BusIn) (hreq : ∀ x ∈ xs, (x.ms i).cyc = true) :
+    RoundRobin.stalls c.n i s.grant (wbReqs xs) +
+      RoundRobin.dist c.n ((Wb.Shared.machine c).runFrom s xs).grant i ≤ RoundRobin.dist c.n s.grant i ∧
+    RoundRobin.dist c.n s.grant i ≤ c.n - 1 := by
+  rw [wb_grant_is_roundrobin]
+  have hr : ∀ rc ∈ wbReqs xs, rc.1 i = true := by
+    intro rc hrc
+    simp only [wbReqs, List.mem_map] at hrc
+    obtain ⟨x, hx, rfl⟩ := hrc
+    exact hreq x hx
+  refine ⟨RoundRobin.rr_stalls_bounded hi (wbReqs xs) hg hr, ?_⟩
+  have := RoundRobin.dist_lt c.n s.grant i (by omega)
+  omega
+
+end liveness
 
 /-! ## Wishbone `Crossbar`: `timeout_cycles` is ignored (known finding C11-crossbar-timeout-ignored) -/
 
